@@ -29,6 +29,7 @@ func init() {
 			c.NoNestedAcquisition("C15")
 			c.LockReleased("C15") // a lock kept beyond its function also leaves requests waiting forever
 			c.NoRecursiveLock("C15")
+			c.RequestPathWaits("C04") // a request parked behind another request's unlock, lookup or signature never completes if that one forgets it
 			c.RulerLocking("C15")
 		},
 		Explanation: "Deadlock freedom by structure: key locks are only requested inside one locker-wide gate, the gate is released after the last request with nothing blocking in between, and nothing that runs while key locks are held asks for another. See DESIGN.md §5 C15.",
